@@ -214,6 +214,37 @@ impl C12 {
             return;
         }
         ctx.count("clones_equal_to_source");
+        // a cloned document: whatever xml_id_node finds in it is one of ITS nodes (or nothing), never a source node
+        if src_kind == MKind::Doc {
+            let mut ids: Vec<String> = Vec::new();
+            src_state.tree.walk(&mut |n| {
+                for (q, v) in &n.attrs {
+                    if q.ns == XML_NS && q.local == "id" {
+                        ids.push(v.clone());
+                    }
+                }
+            });
+            let mine: HashSet<Node> = cl.handles.iter().copied().collect();
+            for id in ids.iter().chain(std::iter::once(&"i1".to_string())) {
+                match guard(|| f.xot.xml_id_node(c, id)) {
+                    Ok(None) => {}
+                    Ok(Some(n)) if mine.contains(&n) => ctx.count("xml_id_lookups_in_clone"),
+                    Ok(Some(n)) => {
+                        ctx.violation(
+                            "xml_id_node on the cloned document hands out a node that is not part of the clone",
+                            format!("C12/{}/xml-id-lookup-leaves-the-clone/{}", api, if old.contains(&n) { "source-node" } else { "foreign-node" }),
+                            base(format!("xml_id_node(clone, {:?}) = {}", id, guard(|| describe(&f.xot, n)).unwrap_or_default())),
+                        );
+                        return;
+                    }
+                    Err(p) => {
+                        ctx.violation("xml_id_node on the clone panicked", format!("C12/{}/xml-id-lookup/panic/{}", api, p.sig()), base(p.short()));
+                        return;
+                    }
+                }
+            }
+            ctx.count("cloned_documents_xml_id_probed");
+        }
         // clone_with_prefixes: serialises on its own whenever the source serialised in place
         if with_prefixes && src_kind == MKind::Elem {
             if let Some(text_src) = &in_place_ser {
@@ -298,6 +329,9 @@ impl C12 {
             e("", "r").with_decl("x", "urn:A").with_children(vec![e("", "a").with_children(vec![e("", "b").with_decl("y", "urn:A").with_children(vec![e("urn:A", "c")]), e("urn:A", "d")])]),
             // inherited default namespace
             e("urn:A", "r").with_decl("", "urn:A").with_children(vec![e("urn:A", "e").with_children(vec![e("urn:A", "f")])]),
+            // the xml prefix rebound by an ancestor (the API allows it): the clone needs that binding like any other
+            e("", "r").with_decl("xml", "urn:A").with_children(vec![e("", "e").with_children(vec![e("urn:A", "f")])]),
+            e("", "r").with_decl("xml", "urn:A").with_children(vec![e("", "e").with_attr(QName::new("urn:A", "at"), "v")]),
             // inherited binding shadowed below the clone root for another subtree
             e("", "r").with_decl("p", "urn:A").with_children(vec![e("", "e").with_children(vec![e("urn:A", "f"), e("", "g").with_decl("p", "urn:B").with_children(vec![e("urn:B", "h")])])]),
         ];
